@@ -487,7 +487,8 @@ def record(scn_name, histories):
     return traces
 
 
-def validate(traces, timeout=1200, cfg='SchedTrace.cfg'):
+def _validate_chunk(args):
+    traces, timeout, cfg = args
     work = tlc.scratch('verif-batch-')
     try:
         path = os.path.join(work, 'batch.json')
@@ -498,6 +499,22 @@ def validate(traces, timeout=1200, cfg='SchedTrace.cfg'):
     finally:
         import shutil
         shutil.rmtree(work, ignore_errors=True)
+
+
+def validate(traces, timeout=1200, cfg='SchedTrace.cfg', chunk=1500):
+    """TLC judges the batch; large batches are cut into chunks validated by
+    several TLC processes side by side (each chunk is independent)."""
+    if len(traces) <= chunk:
+        return _validate_chunk((traces, timeout, cfg))
+    import concurrent.futures
+    chunks = [traces[i:i + chunk] for i in range(0, len(traces), chunk)]
+    verdicts, stats = [], {}
+    with concurrent.futures.ThreadPoolExecutor(4) as ex:
+        for v, st in ex.map(_validate_chunk, [(c, timeout, cfg) for c in chunks]):
+            verdicts.extend(v)
+            stats = stats or st
+    stats['chunks'] = len(chunks)
+    return verdicts, stats
 
 
 # ---------------------------------------------------------------------------
